@@ -63,6 +63,12 @@ var relatedNameGroups = [][]genName{
 	{{2, []byte("xn--0.example.com")}, {2, []byte("www.example.com")}, {2, []byte("a.xn--ex-8tb.example.com")}},
 	{{2, []byte("xn--a.example.com")}, {2, []byte("xn--.example.com")}, {2, []byte("xn--caf-dma.example.com")}},
 	{{2, []byte(strings.Repeat("z", 64) + ".example.com")}, {2, []byte("a.example.com")}, {2, []byte("m.example.com")}},
+	// a name in absolute form (trailing dot) in lists of three, five, six and seven names (a list whose length is not a
+	// power of two has spare capacity behind it)
+	{{2, []byte("www.example.com")}, {2, []byte("example.com.")}, {2, []byte("mail.example.com")}},
+	{{2, []byte("a.example.com")}, {2, []byte("b.example.com")}, {2, []byte("c.example.com.")}, {2, []byte("d.example.com")}, {2, []byte("e.example.com")}},
+	{{2, []byte("a.example.org.")}, {2, []byte("b.example.org")}, {2, []byte("c.example.org")}, {2, []byte("d.example.org")}, {2, []byte("e.example.org")}, {2, []byte("F.EXAMPLE.ORG.")}},
+	{{2, []byte("a.example.net")}, {2, []byte("b.example.net")}, {2, []byte("c.example.net")}, {2, []byte("localhost")}, {2, []byte("e.example.net")}, {2, []byte("f.example.net.")}, {2, []byte("co.uk")}},
 	// names related as strings but not as names: a final label that ends in (starts with, contains) another name's final
 	// label, a name that ends in another name without a label boundary between them
 	{{2, []byte("www.example.net")}, {2, []byte("host.intranet")}},
@@ -218,6 +224,17 @@ func certZoo() []ZooCert {
 			}
 		}
 	}
+	// (2a) signature values of every length class under each declared algorithm (an ECDSA-Sig-Value is at most 72, 104 or
+	// 139 octets on the NIST curves; RSA signatures are 128..512), random content
+	if der, _, err := issue(leafTemplate(), nil); err == nil {
+		for _, a := range []int{0, 3, 4, 7, 8} {
+			for _, n := range []int{0, 1, 8, 64, 70, 72, 73, 104, 105, 139, 140, 256, 512} {
+				if mut, err := replaceSigAlg(der, sigAlgs[a].der, rng.Bytes(n)); err == nil {
+					add("sigalg", fmt.Sprintf("len-%s-%d", sigAlgs[a].name, n), mut)
+				}
+			}
+		}
+	}
 	// (2b) the two copies of the algorithm identifier disagree, in every combination of short and long encodings
 	if der, _, err := issue(leafTemplate(), nil); err == nil {
 		algs := append(append([]struct {
@@ -367,6 +384,26 @@ func certZoo() []ZooCert {
 			issueT("related-names", fmt.Sprintf("%d-%d", i, v), t)
 		}
 	}
+	// the related-name groups again under every certificate profile that keeps dNSNames (DV / OV / IV / EV policies, code
+	// signing, sub-CA, ...): which lints see a name list depends on the profile
+	for pi, p := range scopeProfiles() {
+		if strings.HasPrefix(p.name, "smime") {
+			continue
+		}
+		for i, g := range relatedNameGroups {
+			if !thorough && (i+pi)%3 != 0 && p.name != "tls-ev" {
+				continue
+			}
+			t := leafTemplate()
+			t.NotBefore = time.Date(2024, 10, 1, 0, 0, 0, 0, time.UTC)
+			t.NotAfter = time.Date(2025, 3, 1, 0, 0, 0, 0, time.UTC)
+			p.apply(t)
+			t.DNSNames = nil
+			t.RawSubject = rawSubject(p.base, nil)
+			t.ExtraExtensions = append(t.ExtraExtensions, generalNamesExt(asn1SAN, g, false))
+			issueT("related-names", fmt.Sprintf("%d-%s", i, p.name), t)
+		}
+	}
 	for i, der := range manySanCerts() {
 		add("many-san", fmt.Sprint(i), der)
 	}
@@ -435,6 +472,36 @@ func certZoo() []ZooCert {
 			t.DNSNames = []string{nm}
 			t.OCSPServer = []string{"http://ocsp." + nm + "/"}
 			issueT("tld", "unlisted-"+nm, t)
+		}
+	}
+	// (6b) authority information access: every ordered pair of location kinds (public, internal name, unparseable,
+	// without scheme, other scheme, address literal, empty), split over the two lists and inside one list, on a TLS
+	// certificate and on one in the scope of both the TLS and the S/MIME documents
+	{
+		locs := []string{"http://ocsp.example.com/", "http://ocsp.pki.corp/", "http://ca.example.com/%zz.cer", "ca.example.com/ca.crt", "ldap://ldap.example.com/cn=CA?cACertificate;binary", "http://10.1.2.3/ca.crt", ""}
+		for ai, a := range locs {
+			for bi, b := range locs {
+				for shape := 0; shape < 2; shape++ {
+					for both := 0; both < 2; both++ {
+						if !thorough && (ai+bi+shape+both)%2 == 1 && ai != 1 && bi != 1 {
+							continue
+						}
+						t := leafTemplate()
+						t.NotBefore, t.NotAfter = time.Date(2023, 10, 1, 0, 0, 0, 0, time.UTC), time.Date(2024, 1, 1, 0, 0, 0, 0, time.UTC)
+						if shape == 0 {
+							t.OCSPServer, t.IssuingCertificateURL = []string{a}, []string{b}
+						} else {
+							t.OCSPServer = []string{a, b}
+						}
+						if both == 1 {
+							t.ExtKeyUsage = []stdx509.ExtKeyUsage{stdx509.ExtKeyUsageServerAuth, stdx509.ExtKeyUsageEmailProtection}
+							t.EmailAddresses = []string{"a@example.com"}
+							t.PolicyIdentifiers = []asn1.ObjectIdentifier{{2, 23, 140, 1, 5, 1, 1}}
+						}
+						issueT("aia", fmt.Sprintf("%d-%d-%d-%d", ai, bi, shape, both), t)
+					}
+				}
+			}
 		}
 	}
 	// (7) own-key signatures under another issuer name
